@@ -20,6 +20,7 @@ import (
 	"net/http"
 	"os"
 	"path/filepath"
+	"reflect"
 	"strings"
 	"time"
 
@@ -436,6 +437,13 @@ func runC17(m *Sim) {
 			rep, err := DecodeSyncReply(last)
 			if err != nil || rep.Refused {
 				m.Fail("C17.cli-adopt", "round", "the client accepted a reply that does not follow the documented layout (%v)", err)
+			}
+			// An honest server's reply carries its list as it is now (for a device
+			// without a pending order): a ban the GCA posted a moment ago included.
+			if from != rogue && from != nil && from.Up && rep.NewGCA == (glow.PublicKey{}) {
+				if have := from.Snap().Servers; !reflect.DeepEqual(rep.Servers, have) && !(len(rep.Servers) == 0 && len(have) == 0) {
+					m.Fail("C17.srv-model", "sync-reply", "the sync reply of %s carries %d server entries that differ from the list that server holds (%d entries): a ban or an addition has not reached the reply", from.Name, len(rep.Servers), len(have))
+				}
 			}
 			if why := c17Valid(rep, from, dev, model.gca); why != "" {
 				m.Fail("C17.cli-adopt", why, "the client accepted a sync reply that lacks a required signature: %s", why)
